@@ -172,7 +172,7 @@ def copy_(op, dest, src, non_blocking=False):
         # Copy a standard Tensor into a quantized Tensor: project its values using the scale of the destination
         from .quantizers import SymmetricQuantizer
 
-        src = torch.broadcast_to(src, dest.shape).to(dest.dtype)
+        src = torch.broadcast_to(src, dest.shape).to(device=dest.device, dtype=dest.dtype)
         dest._data = op(dest._data, SymmetricQuantizer.apply(src, dest.qtype, dest.axis, dest._scale)._data, non_blocking)
         return dest
     assert dest.qtype == src.qtype
